@@ -269,7 +269,14 @@ func (r *reporter) mismatch(c *tcase, in inst, op, what string, exp, got interfa
 		"op": op, "expected": exp, "observed": got})
 }
 
-func fstr(v float64) string { return fmt.Sprintf("%v", v) }
+// fstr: values as strings (NaN must equal NaN); the sign of a zero is not a matter of C10
+// (a stored -0 entry and an absent entry are the same element)
+func fstr(v float64) string {
+	if v == 0 {
+		return "0"
+	}
+	return fmt.Sprintf("%v", v)
+}
 
 // content of a matrix read element by element (strings: NaN must equal NaN)
 func snap(m ConstMatrix) [][]string {
